@@ -110,7 +110,7 @@ Proof. induction l; cbn; auto. Qed.
 Lemma freed_completes {A} (f : A -> aioid) (l : list A) : freed (map (fun x => Complete (f x) E_OK None) l) = [].
 Proof. induction l; cbn; auto. Qed.
 
-(* the completions of the repaired resize accept exactly the admitted senders' messages *)
+(* the completions of the repaired resize accept exactly the letin senders' messages *)
 Lemma accepted_completes s o (l : list (aioid * pmsg)) :
   (forall c a nb m, o <> PSend c a nb m) -> NoDup (map fst (ps_aq s)) -> (forall x, In x l -> In x (ps_aq s)) ->
   accepted s o (map (fun x => Complete (fst x) E_OK None) l) = map snd l.
@@ -131,7 +131,7 @@ Proof.
   destruct (is_resize o) eqn:R; [|rewrite push_step_r_other in H by exact R; eapply push_step_law; eauto].
   destruct o as [| | | | | | |c op| | | |]; try discriminate. destruct op; try discriminate. cbn [push_step_r] in H.
   destruct (fr && negb (8192 <? N.of_nat n)%N); [|eapply push_step_law; eauto].
-  pose proof HI as (I1 & I2 & I3 & I4 & I5 & I6). unfold push_resize_admit in H. inversion H; subst; clear H.
+  pose proof HI as (I1 & I2 & I3 & I4 & I5 & I6). unfold push_resize_takein in H. inversion H; subst; clear H.
   set (wq1 := firstn n (ps_wq s)). set (room := n - length wq1). split.
   - pinv6; simp_p; auto.
     + intros Hne. destruct (I1 Hne) as [W A]. unfold wq1. rewrite W, A, firstn_nil, firstn_nil, skipn_nil. split; reflexivity.
@@ -151,7 +151,7 @@ Proof.
   destruct (is_resize o) eqn:R; [|rewrite push_step_r_other in H by exact R; eapply push_writable_mirror; eauto].
   destruct o as [| | | | | | |c op| | | |]; try discriminate. destruct op; try discriminate. cbn [push_step_r] in H.
   destruct (fr && negb (8192 <? N.of_nat n)%N); [|eapply push_writable_mirror; eauto].
-  unfold push_resize_admit in H. inversion H; subst; clear H.
+  unfold push_resize_takein in H. inversion H; subst; clear H.
   unfold WInv, can_accept, wq_full in *. simp_p.
   match goal with |- context [n <=? ?L] => destruct (n <=? L) end; cbn [negb orb] in *.
   - destruct (ps_pl s) eqn:PL; cbn in *; auto.
@@ -265,7 +265,7 @@ Proof.
     destruct Hfr as [->|Hfr]; [|discriminate]. cbn [andb] in H.
     destruct (8192 <? N.of_nat n)%N eqn:EB; cbn [negb] in H.
     { inversion H; subst. apply sub_same; auto. cbn [sub_loss]. now rewrite EB. }
-    unfold push_resize_admit in H. inversion H; subst; clear H.
+    unfold push_resize_takein in H. inversion H; subst; clear H.
     set (wq1 := firstn n (ps_wq s)). set (room := n - length wq1).
     unfold SubLaw, QInv, pend, sub_loss, entered, wq_full. simp_p. rewrite EB.
     rewrite !txs_app, txs_map_Free, txs_completes. cbn [txs app]. rewrite !app_nil_r.
